@@ -1956,7 +1956,11 @@ func (interp *Interpreter) cfg(root *node, sc *scope, importPath, pkgName string
 					return
 				}
 				// TODO(mpl): move any of that code to typecheck?
-				c.typ.node = c
+				if c.typ.untyped {
+					// The node gives the value of a constant, to check that it is representable. The type
+					// of a declared function or variable is shared: its node must remain the declaration.
+					c.typ.node = c
+				}
 				if !c.typ.assignableTo(typ) {
 					err = c.cfgErrorf("cannot use %v (type %v) as type %v in return argument", c.ident, c.typ.cat, typ.cat)
 					return
